@@ -203,4 +203,40 @@ theorem c03_exposed (s : Repo) (hinv : RepoInv s) (d : Bool) (q : ReqView) (src 
       rw [hve, hoff] at hex
       simp [hsl] at hex
 
+theorem lastWins_go (acc ps : List (String × String)) (h : ((acc ++ ps).map (·.1)).Nodup) :
+    ps.foldl (fun acc kv => (acc.filter (fun a => a.1 != kv.1)) ++ [kv]) acc = acc ++ ps := by
+  induction ps generalizing acc with
+  | nil => simp
+  | cons kv rest ih =>
+    simp only [List.foldl_cons]
+    have hfil : acc.filter (fun a => a.1 != kv.1) = acc := by
+      apply List.filter_eq_self.mpr
+      intro a ha
+      simp only [bne_iff_ne, ne_eq]
+      intro e
+      rw [List.map_append, List.nodup_append] at h
+      have := h.2.2 a.1 (List.mem_map.mpr ⟨a, ha, rfl⟩) kv.1 (by simp)
+      exact this e
+    rw [hfil, ih (acc ++ [kv]) (by simpa [List.append_assoc] using h)]
+    simp
+
+/-- with distinct names nothing is overwritten -/
+theorem lastWins_nodup (ps : List (String × String)) (h : (ps.map (·.1)).Nodup) : lastWins ps = ps := by
+  unfold lastWins
+  simpa using lastWins_go [] ps (by simpa using h)
+
+/-- **The value a condition is checked on is the value exposed** — when the named wildcards of the expression have
+distinct names: the segment `path_params` looks up for `name` is the one exposed under `name`. -/
+theorem c03_checked_value_is_exposed (keys caps : List String) (name v : String) (hname : name ≠ "*")
+    (hnd : ((keys.zip caps).filter (fun kv => kv.1 ≠ "*")).map (·.1) |>.Nodup)
+    (h : lookupKey keys caps name = some v) :
+    (name, v) ∈ lastWins ((keys.zip caps).filter (fun kv => kv.1 ≠ "*")) := by
+  rw [lastWins_nodup _ hnd]
+  exact List.mem_filter.mpr ⟨c03_lookupKey_mem keys caps name v h, by simpa using hname⟩
+
+/-- with a name used twice (`/d/:a/:a`) the condition is checked on the first segment and the last one is exposed -/
+example : lookupKey ["a", "a"] ["x", "y"] "a" = some "x" ∧
+    lastWins ((["a", "a"].zip ["x", "y"]).filter (fun kv => kv.1 ≠ "*")) = [("a", "y")] := by decide
+
+
 end Heimdall.Props.C03
